@@ -38,6 +38,7 @@ pub struct Stats {
   pub divergences: u64,
   pub monitor_violations: u64,
   pub impl_panics: u64,
+  pub c06_pairs: u64,
   pub nonwf_layouts: u64,
   pub by_source: HashMap<String, u64>,
   pub samples: Vec<String>
@@ -52,7 +53,7 @@ impl Stats {
     self.multi_active_states += o.multi_active_states; self.repeat_requests += o.repeat_requests;
     self.capped_explorations += o.capped_explorations; self.divergences += o.divergences;
     self.monitor_violations += o.monitor_violations; self.impl_panics += o.impl_panics;
-    self.nonwf_layouts += o.nonwf_layouts;
+    self.nonwf_layouts += o.nonwf_layouts; self.c06_pairs += o.c06_pairs;
     for (k, v) in &o.by_source { *self.by_source.entry(k.clone()).or_insert(0) += v; }
     for s in &o.samples { if self.samples.len() < 12 { self.samples.push(s.clone()); } }
   }
@@ -160,6 +161,7 @@ pub fn explore(lean: &mut Lean, source: &str, layout: &Layout, alphabet: &[KeyCo
   let mut head = 0usize;
   let mut capped = false;
   let mut sample_done = false;
+  let mut rest_checked: std::collections::HashSet<String> = std::collections::HashSet::new();
   while head < nodes.len() {
     let id = head as u32;
     head += 1;
@@ -179,6 +181,19 @@ pub fn explore(lean: &mut Lean, source: &str, layout: &Layout, alphabet: &[KeyCo
       match r {
         Ok(evs) => {
           let after = mapper.verif_snapshot();
+          // C06 on the implementation: a rest state / the state after release_all answers like a fresh mapper
+          for (what, st) in [("rest", &snap), ("release_all", &after)] {
+            if what == "rest" && !p.is_empty() { continue; }
+            let key = fmt::state(layout, st);
+            if rest_checked.len() < 24 && rest_checked.insert(key) {
+              if let Some((cont, got, fresh)) = pair_check(layout, st, alphabet, 400, &mut stats.c06_pairs) {
+                let mut h = history_to(&nodes, id);
+                stats.monitor_violations += 1;
+                findings.push(Finding { kind: "property".into(), properties: vec!["C06".into()], source: source.into(), layout: layout.clone(), history: { if what == "release_all" { h.clear(); } h.extend(cont.clone()); h }, state: fmt::state(layout, st), request: format!("after {} (history {}), continuation {}", what, fmt::events_human(&history_to(&nodes, id)), fmt::events_human(&cont)), impl_says: got, model_says: format!("fresh mapper: {}", fresh) });
+              }
+              mapper.verif_restore(&snap);
+            }
+          }
           let out = format!("{} {}", fmt::events(&evs), fmt::state(layout, &after));
           lean.expect(KIND_RELALL, id as u64, format!("RA {}", state_s), out.clone());
           lean.expect(KIND_MONRA, id as u64, format!("MRA {} {} {} {}", p_s, v_s, state_s, out), "ok".to_string());
@@ -271,6 +286,46 @@ pub fn explore(lean: &mut Lean, source: &str, layout: &Layout, alphabet: &[KeyCo
     let _ = kept;
   }
   stats.lean_requests = lean.sent;
+}
+
+// C06 on the implementation: from `start` (a rest state, or the state right after release_all) and from
+// a fresh mapper, feed the same events (breadth first over pairs, bounded) and compare the responses.
+// Returns a history (continuation) on which they differ, with both responses.
+pub fn pair_check(layout: &Layout, start: &VerifSnapshot, alphabet: &[KeyCode], max_pairs: usize, pairs_explored: &mut u64) -> Option<(Vec<Event>, String, String)> {
+  let mut a = Mapper::for_layout(layout);
+  let mut b = Mapper::for_layout(layout);
+  let fresh = b.verif_snapshot();
+  let mut queue: Vec<(VerifSnapshot, VerifSnapshot, u32, Option<Event>)> = vec![(clone_snap(start), fresh, 0, None)];
+  let mut seen: std::collections::HashSet<String> = std::collections::HashSet::new();
+  seen.insert(format!("{}#{}", fmt::state(layout, start), fmt::state(layout, &queue[0].1)));
+  let mut head = 0;
+  while head < queue.len() && queue.len() < max_pairs {
+    let (sa, sb) = (clone_snap(&queue[head].0), clone_snap(&queue[head].1));
+    let id = head as u32;
+    head += 1;
+    *pairs_explored += 1;
+    if sa.input_pressed_keys.len() >= 3 { continue; }
+    for k in alphabet {
+      for pressed in [true, false] {
+        let ev = if pressed { Event::Pressed(*k) } else { Event::Released(*k) };
+        a.verif_restore(&sa);
+        b.verif_restore(&sb);
+        let ra = a.step(ev.clone());
+        let rb = b.step(ev.clone());
+        if ra != rb {
+          let mut h = vec![ev.clone()];
+          let mut cur = id;
+          while let Some(e) = &queue[cur as usize].3 { h.push(e.clone()); cur = queue[cur as usize].2; }
+          h.reverse();
+          return Some((h, format!("{} {}", fmt::events(&ra.events), fmt::rrepeat(&ra.repeat)), format!("{} {}", fmt::events(&rb.events), fmt::rrepeat(&rb.repeat))));
+        }
+        let (na, nb) = (a.verif_snapshot(), b.verif_snapshot());
+        let key = format!("{}#{}", fmt::state(layout, &na), fmt::state(layout, &nb));
+        if seen.insert(key) { queue.push((na, nb, id, Some(ev))); }
+      }
+    }
+  }
+  None
 }
 
 pub fn layout_to_json(l: &Layout) -> serde_json::Value {
@@ -435,7 +490,7 @@ pub fn run(opts: &Opts) -> i32 {
     "states_with_two_or_more_active_mappings": stats.multi_active_states,
     "repeat_requests": stats.repeat_requests, "capped_explorations": stats.capped_explorations,
     "divergences": stats.divergences + ak_div, "monitor_violations": stats.monitor_violations,
-    "impl_panics": stats.impl_panics, "non_wf_layouts_checked_for_panic": stats.nonwf_layouts,
+    "impl_panics": stats.impl_panics, "c06_pair_states_compared_with_fresh_mapper": stats.c06_pairs, "non_wf_layouts_checked_for_panic": stats.nonwf_layouts,
     "transitions_by_source": stats.by_source, "max_held": max_held, "max_states_per_exploration": max_states,
     "samples": stats.samples, "findings": findings.len()
   });
